@@ -22,9 +22,9 @@ type pathState struct {
 // a barrier instruction, together with the set of values known non-nil on the path that reaches
 // them (edges of `v != nil` / `v == nil` tests taken on the path).
 type reachedReturn struct {
-	Ret     *ssa.Return
-	NonNil  map[ssa.Value]bool
-	IsNil   map[ssa.Value]bool
+	Ret    *ssa.Return
+	NonNil map[ssa.Value]bool
+	IsNil  map[ssa.Value]bool
 }
 
 func returnsReachable(from *ssa.BasicBlock, fromIdx int, barrier func(ssa.Instruction) bool) []reachedReturn {
@@ -125,7 +125,9 @@ func errorOperand(r *ssa.Return) ssa.Value {
 }
 
 // retValue resolves result i of a Return. In functions with defer statements go/ssa spills results:
-//     *res = v; rundefers; t = *res; return t
+//
+//	*res = v; rundefers; t = *res; return t
+//
 // the value is then the last store to the result cell in the same block.
 func retValue(r *ssa.Return, i int) ssa.Value {
 	v := r.Results[i]
@@ -188,9 +190,9 @@ func provablyNonNilError(v ssa.Value) bool {
 // ---------- intraprocedural taint flow
 
 type taintSpec struct {
-	source  func(v ssa.Value) bool           // values that start tainted
-	cleanse func(call *ssa.Call) bool        // calls whose result is clean even with tainted args
-	passes  func(call *ssa.Call) bool        // calls that propagate taint from args to result (default: none)
+	source  func(v ssa.Value) bool    // values that start tainted
+	cleanse func(call *ssa.Call) bool // calls whose result is clean even with tainted args
+	passes  func(call *ssa.Call) bool // calls that propagate taint from args to result (default: none)
 }
 
 // taintedValues computes the set of tainted SSA values of f (forward closure over referrers)
@@ -622,6 +624,33 @@ func family(g *ssa.Function, depth int) []*ssa.Function {
 		for _, a := range f.AnonFuncs {
 			add(a, d)
 		}
+		// functions of the module used as values (a closure turned into a named function or a bound method): they stand
+		// where a closure of f stood
+		for _, in := range instrsOf(f) {
+			for _, op := range in.Operands(nil) {
+				h, isF := (*op).(*ssa.Function)
+				if !isF || h == f {
+					continue
+				}
+				if call, isCall := in.(ssa.CallInstruction); isCall && call.Common().Value == ssa.Value(h) {
+					continue
+				}
+				if h.Synthetic != "" {
+					// a bound-method / thunk wrapper: the method it forwards to
+					for _, in2 := range instrsOf(h) {
+						if c2, ok := in2.(ssa.CallInstruction); ok {
+							if m := c2.Common().StaticCallee(); m != nil && m.Pkg != nil && strings.HasPrefix(m.Pkg.Pkg.Path(), modPath) {
+								add(m, d)
+							}
+						}
+					}
+					continue
+				}
+				if h.Pkg != nil && strings.HasPrefix(h.Pkg.Pkg.Path(), modPath) {
+					add(h, d)
+				}
+			}
+		}
 		if d == 0 {
 			return
 		}
@@ -751,4 +780,41 @@ func returnSourcesIP(u *Universe, f *ssa.Function, idx int, depth int, stop func
 	}
 	visit(f, idx, depth)
 	return out
+}
+
+// flowsFromDeep: like flowsFrom, also through loads of fields of the value (x.f, (*x).f)
+func flowsFromDeep(v ssa.Value, pred func(ssa.Value) bool) bool {
+	seen := map[ssa.Value]bool{}
+	var walk func(v ssa.Value) bool
+	walk = func(v ssa.Value) bool {
+		if v == nil || seen[v] {
+			return false
+		}
+		seen[v] = true
+		if flowsFrom(v, pred) {
+			return true
+		}
+		switch x := v.(type) {
+		case *ssa.UnOp:
+			return walk(x.X)
+		case *ssa.FieldAddr:
+			return walk(x.X)
+		case *ssa.Field:
+			return walk(x.X)
+		case *ssa.TypeAssert:
+			return walk(x.X)
+		case *ssa.Extract:
+			return walk(x.Tuple)
+		case *ssa.Convert:
+			return walk(x.X)
+		case *ssa.Phi:
+			for _, e := range x.Edges {
+				if walk(e) {
+					return true
+				}
+			}
+		}
+		return false
+	}
+	return walk(v)
 }
